@@ -729,13 +729,13 @@ theorem SsetModel_ref (a : Arr) (ix : Index) (v : Val) (hw : WF a) (hv : WFVal v
             cases ix with
             | int i =>
               simp only
-              cases hm : normInt a.coord.length i with
-              | error e => rfl
-              | ok m =>
-                simp only
-                by_cases h5 : (a.box.isSome != x.box.isSome) = true
-                · simp only [h5, if_true]; rfl
-                · simp only [h5, Bool.false_eq_true, if_false, Except.map]
+              by_cases h5 : (a.box.isSome && !x.box.isSome) = true
+              · simp only [h5, if_true]; rfl
+              · simp only [h5, Bool.false_eq_true, if_false]
+                cases hm : normInt a.coord.length i with
+                | error e => rfl
+                | ok m =>
+                  simp only [Except.map]
                   congr 1
                   symm
                   refine abs_eq_of_rows _ _ _ _ _ _ _ _ ?h1 ?h2 ?hnm ?hr ?h5 ?h6 ?h7 <;> try rfl
